@@ -118,20 +118,68 @@ def pathCommentAdd (s : List Char) : Option Key :=
 compared with the spelling *as passed*; no validation before the comparison. -/
 def pathCommentDel (s : List Char) : Option Key := some (.ref s)
 
-/-- the canonical key of the cell a spelling denotes, in the key space of a path -/
-def keyOfCell (kind : Key) (c r : Int) : Option Key :=
-  match kind with
-  | .xy _ _ => some (.xy c r)
-  | .ref _ =>
+/-- a grid position is the cell whose stored reference `c.R` is the canonical
+relative name (`prepareSheetXML` / `checkRow` fill `c.R` that way): both kinds of
+key are compared in the space of stored references. -/
+def Key.stored : Key → Option (List Char)
+  | .xy c r =>
     match coordinatesToCellName c r false with
-    | .ok canon => some (.ref canon)
+    | .ok canon => some canon
     | .error _ => none
+  | .ref s => some s
 
 /-- paired use: does the reader called with spelling `t` hit what the writer
 called with spelling `s` stored?  `none` = one of the two calls is rejected. -/
 def pairFinds (w rd : List Char → Option Key) (s t : List Char) : Option Bool :=
   match w s, rd t with
-  | some a, some b => some (a == b)
+  | some a, some b =>
+    match a.stored, b.stored with
+    | some x, some y => some (x == y)
+    | _, _ => none
   | _, _ => none
+
+/-- the three probes of the `paths` transcript op for one writer/reader pair:
+reader called with the writer's spelling, with the canonical spelling, with the
+absolute spelling. One character per probe: `1` found, `0` not found, `E` a call
+was rejected. -/
+def probe (w rd : List Char → Option Key) (s t : List Char) : Char :=
+  match pairFinds w rd s t with
+  | some true => '1'
+  | some false => '0'
+  | none => 'E'
+
+def probes (w rd : List Char → Option Key) (s canon alt : List Char) : List Char :=
+  [probe w rd s s, probe w rd s canon, probe w rd s alt]
+
+/-- the `paths` op: for an accepted spelling, the verdicts of all writer/reader
+pairs; `rejected` when the spelling is not accepted by the setters. Pairs:
+V SetCellValue/GetCellValue, N SetCellInt/GetCellValue, F SetCellFormula/GetCellFormula,
+T SetCellBool/GetCellType (P/G); S SetCellStyle/GetCellStyle (D/D);
+R SetCellRichText/GetCellRichText (P/R); H SetCellHyperLink/GetCellHyperLink;
+P AddPicture/GetPictures (D/D); C AddComment/DeleteComment. -/
+def pathsOp (s : List Char) : List Char :=
+  match cellNameToCoordinates s with
+  | .error _ => "rejected".toList
+  | .ok (c, r) =>
+    match coordinatesToCellName c r false, coordinatesToCellName c r true with
+    | .ok canon, .ok alt =>
+      let pg := probes pathPrepare pathGetString s canon alt
+      'V' :: pg ++ 'N' :: pg ++ 'F' :: pg ++ 'T' :: pg ++
+      'S' :: probes pathDirect pathDirect s canon alt ++
+      'R' :: probes pathPrepare pathRichGet s canon alt ++
+      'H' :: probes pathLinkSet pathLinkGet s canon alt ++
+      'P' :: probes pathDirect pathDirect s canon alt ++
+      'C' :: probes pathCommentAdd pathCommentDel s canon alt
+    | _, _ => "rejected".toList
+
+/-- the `rngapi` op: `MergeCell(sheet, a, b)` decodes `a + ":" + b` with the range
+decoder, sorts the corners and stores the canonical range reference. -/
+def mergeCellRef (a b : List Char) : Option (List Char) :=
+  match rangeRefToCoordinates (a ++ [':'] ++ b) with
+  | .ok q =>
+    match coordinatesToRangeRef (sortCoordinates q) false with
+    | .ok ref => some ref
+    | .error _ => none
+  | .error _ => none
 
 end XlModel.Ref
